@@ -30,6 +30,15 @@ BgCountsOf(data, w, K, active, starts) ==
         Cardinality({p \in 1..Len(data[active[q] + 1]) :
                        data[active[q] + 1][p] = k - 1 /\ ~(p - 1 >= starts[q] /\ p - 1 < starts[q] + w)})], Len(active))]
 
+\* The same function computed from per-sequence symbol counts (taken once per data set) minus the window contents:
+\* what the trace specification evaluates, so that sequences of tens of thousands of symbols stay cheap.
+SymCounts(seq, K) == [k \in 1..K |-> Cardinality({p \in 1..Len(seq) : seq[p] = k - 1})]
+DataCounts(data, K) == [i \in 1..Len(data) |-> SymCounts(data[i], K)]
+BgCountsFrom(cnt, data, w, K, active, starts) ==
+  [k \in 1..K |->
+     PlainSum([q \in 1..Len(active) |->
+        cnt[active[q] + 1][k] - Cardinality({j \in 1..w : data[active[q] + 1][starts[q] + j] = k - 1})], Len(active))]
+
 StartsInRange(data, w, active, starts) ==
   /\ Len(starts) = Len(active)
   /\ \A q \in 1..Len(active) : active[q] \in 0..(Len(data) - 1) /\ starts[q] >= 0 /\ starts[q] + w <= Len(data[active[q] + 1])
